@@ -1,10 +1,11 @@
 package main
 
 import (
-	"os"
 	"go/ast"
 	"go/constant"
 	"go/token"
+	"go/types"
+	"os"
 	"strings"
 
 	"golang.org/x/tools/go/ssa"
@@ -573,7 +574,7 @@ func isNilMatchGuard(g guardInfo) bool {
 
 func c04R4(h H) {
 	r := h.r
-	r.Rule("R4", "response relay: ReverseProxy.ServeHTTP passes the backend's StatusCode unmodified to WriteHeader; every store of the \"Trailer\" announcement into the response header happens before WriteHeader; copyResponse precedes shallowCopyTrailers", 3)
+	r.Rule("R4", "response relay: ReverseProxy.ServeHTTP passes the backend's StatusCode unmodified to WriteHeader; every store of the \"Trailer\" announcement into the response header happens before WriteHeader; copyResponse precedes shallowCopyTrailers; on every path from WriteHeader to a trailer copy that may force unannounced trailers, the response is flushed", 4)
 	fn0 := h.fn("R4", pxPkg, "(*ReverseProxy).ServeHTTP")
 	if fn0 == nil {
 		return
@@ -673,6 +674,67 @@ func c04R4(h H) {
 	if len(copyTr) == 0 {
 		r.Unresolve("R4", "ReverseProxy.ServeHTTP: shallowCopyTrailers call not found")
 	}
+	// unannounced trailers are forced into the header after the body: unless the response was flushed since the
+	// header was written, net/http may still be holding a short body back, will frame it with a Content-Length and
+	// drop the trailers.  On every path from WriteHeader to the trailer copy on which the "force" argument can be
+	// true, a Flush has happened.
+	isFlush := func(in ssa.Instruction) bool {
+		c := callOf(in)
+		return c != nil && c.IsInvoke() && c.Method.Name() == "Flush"
+	}
+	for _, t := range copyTr {
+		args := callOf(t).Args
+		if len(args) < 3 {
+			continue
+		}
+		force := args[len(args)-1]
+		if k, ok := force.(*ssa.Const); ok && k.Value != nil && k.Value.String() == "false" {
+			continue
+		}
+		falseEdges := map[edge]bool{}
+		for _, b := range fn.Blocks {
+			if len(b.Instrs) == 0 {
+				continue
+			}
+			iff, ok := b.Instrs[len(b.Instrs)-1].(*ssa.If)
+			if !ok {
+				continue
+			}
+			c, neg := stripNot(iff.Cond)
+			if ex, ok := c.(*ssa.Extract); ok && ex.Index == 1 {
+				// `fl, ok := rw.(http.Flusher)`: a writer that cannot flush has nothing held back to flush
+				if ta, ok := ex.Tuple.(*ssa.TypeAssert); ok && ta.CommaOk {
+					if it, ok := underlying(ta.AssertedType).(*types.Interface); ok {
+						for i := 0; i < it.NumMethods(); i++ {
+							if it.Method(i).Name() == "Flush" {
+								if neg {
+									falseEdges[edge{b, 0}] = true
+								} else {
+									falseEdges[edge{b, 1}] = true
+								}
+							}
+						}
+					}
+				}
+				continue
+			}
+			if !sameValue(c, force) {
+				continue
+			}
+			if neg {
+				falseEdges[edge{b, 0}] = true // !force took the true edge: force is false there
+			} else {
+				falseEdges[edge{b, 1}] = true
+			}
+		}
+		ok := true
+		for _, w := range wh {
+			if canReach(fn, w, t, cut{instr: isFlush, edges: falseEdges}) {
+				ok = false
+			}
+		}
+		r.Check(ok, "R4", "proxy.(*ReverseProxy).ServeHTTP/flush-before-forced-trailers", t.Pos(), "when trailers the backend did not announce are forced into the response, the response has been flushed since its header was written (or net/http frames a short body with Content-Length and drops them)")
+	}
 }
 
 // callerArg: the argument bound to parameter p when its function has exactly one static call site in the module.
@@ -697,7 +759,6 @@ func callerArg(p *Program, par *ssa.Parameter) ssa.Value {
 	}
 	return c.Args[idx]
 }
-
 
 // relaysBody: the call runs a function (a helper of the package, or an immediately-invoked closure) that copies a
 // stream — it calls io.Copy / io.CopyBuffer or the package's pooled copy on every path to its return.
